@@ -29,7 +29,7 @@ from pathlib import Path
 from hypothesis import strategies as st
 
 from vlib import dsops, env, history, oracles
-from vlib.core import Stage
+from vlib.core import Stage, hang_is_violation
 
 ID = "C09"
 LEVEL = "exploration"
@@ -356,5 +356,8 @@ STAGES = [
               "quick": 320,
               "thorough": 8000
           },
-          fork=True)
+          fork=True,
+          timeout=300,
+          timeout_violation=hang_is_violation(
+              "equivalent", "the multi-writer call (or reading back its result)"))
 ]
